@@ -486,7 +486,7 @@ var _ = testkeeper.GetModuleAddress
 
 func runCheck(property string) func(run *ev.Run) {
 	return func(run *ev.Run) {
-		depth, deadline := 4, 100*time.Second
+		depth, deadline := 4, 200*time.Second
 		if ev.Tier() == "thorough" {
 			depth, deadline = 6, 25*time.Minute
 		}
